@@ -62,7 +62,16 @@ func checkRoundTrip(c boxprop.Case) *harness.Fail {
 	}
 	d2, err := boxprop.Decode(out1, c.Level, c.Path)
 	if err != nil || d2.Nil() {
-		return harness.Failf("C01|"+topType(in)+"|re-encoded output is rejected by the decoder", "%v\n out %s", err, harness.HexTrunc(out1, 200))
+		if err != nil && strings.Contains(err.Error(), "offset from saio") && largeBeforeSenc(in) {
+			// a box in front of the senc data shrank (64-bit size header written compactly, surplus bytes dropped)
+			// and the absolute saio offset, which the library never recomputes outside EncryptFragment, went stale
+			return harness.Failf("C01|moof|saio offset stale after a size normalisation in front of senc: output rejected", "%v\n out %s", err, harness.HexTrunc(out1, 200))
+		}
+		ec := "no structure"
+		if err != nil {
+			ec = errClass(err)
+		}
+		return harness.Failf("C01|re-encode|output is rejected by the decoder: "+ec, "%v (top-level box %q)\n out %s", err, topType(in), harness.HexTrunc(out1, 200))
 	}
 	// positions are compared only when the output is byte-identical to the input (any normalisation,
 	// e.g. moov re-ordering or a dropped surplus, moves the boxes that follow)
@@ -110,6 +119,42 @@ func topType(in []byte) string {
 
 var digits = regexp.MustCompile(`[0-9]+`)
 
+// largeBeforeSenc reports whether some moof of the input holds a non-mdat box with a 64-bit size header (the
+// moof or traf itself, or a box in front of the senc box): the library writes such a box with the compact
+// header, which moves the senc data by 8 bytes.
+func largeBeforeSenc(in []byte) bool {
+	tree, _ := boxwalk.WalkAll(in)
+	var rec func(bs []*boxwalk.Box, inMoof bool, limit int) bool
+	rec = func(bs []*boxwalk.Box, inMoof bool, limit int) bool {
+		for _, b := range bs {
+			if b.Type == "moof" {
+				lim := -1
+				for _, s := range boxwalk.Flatten([]*boxwalk.Box{b}) {
+					if (s.Type == "senc" || s.Type == "uuid") && s.Start > lim {
+						lim = s.Start
+					}
+				}
+				if lim >= 0 && (b.Large || rec(b.Children, true, lim)) {
+					return true
+				}
+				continue
+			}
+			if inMoof {
+				if b.Start <= limit && b.Large && b.Type != "mdat" {
+					return true
+				}
+				if rec(b.Children, true, limit) {
+					return true
+				}
+			} else if rec(b.Children, false, limit) {
+				return true
+			}
+		}
+		return false
+	}
+	return rec(tree, false, -1)
+}
+
 func errClass(err error) string {
 	s := err.Error()
 	if i := strings.LastIndex(s, ": "); i >= 0 {
@@ -124,6 +169,9 @@ func run(t *testing.T, name string, cfg boxprop.GenConfig) {
 		raw, _ := json.Marshal(c)
 		f := harness.Guarded(func() *harness.Fail { return checkRoundTrip(c) })
 		cls := []string{"level-" + c.Level, "path-" + c.Path}
+		if c.Synth != nil {
+			cls = append(cls, "synth", "synth-"+c.Origin)
+		}
 		if last.accepted {
 			cls = append(cls, "accepted")
 			if c.Pristine() {
@@ -156,7 +204,7 @@ func run(t *testing.T, name string, cfg boxprop.GenConfig) {
 				cls = append(cls, "type-"+ty)
 			}
 		}
-		nt := last.accepted && len(last.types) > 0 && !c.Pristine()
+		nt := last.accepted && len(last.types) > 0 && (!c.Pristine() || c.Synth != nil)
 		harness.Rec.Case(nt, raw, cls...)
 		if nt && harness.Rec.WantSample() && len(raw) < 500 {
 			harness.Rec.Sample(map[string]interface{}{"kind": "roundtrip", "case": c, "input": fmt.Sprintf("%s", harness.HexTrunc(c.Bytes(), 80))})
@@ -184,4 +232,11 @@ func TestFieldMutations(t *testing.T) {
 // TestStructureMutations: all structure-aware mutations.
 func TestStructureMutations(t *testing.T) {
 	run(t, "structure", boxprop.GenConfig{MaxSeed: harness.Pick(64<<10, 300<<10), Mutate: true})
+}
+
+// TestSynth: boxes and files written by the grammar generator internal/boxgen (legal field combinations no
+// harvested file has), unmodified; TestSynthMutated: the same with field mutations on top.
+func TestSynth(t *testing.T) { run(t, "synth", boxprop.GenConfig{MaxSeed: 300 << 10, SynthPct: 100}) }
+func TestSynthMutated(t *testing.T) {
+	run(t, "synthmut", boxprop.GenConfig{MaxSeed: 300 << 10, SynthPct: 100, Mutate: true, FieldOnly: true})
 }
